@@ -157,6 +157,11 @@ let () = iter_lines (fun line ->
       let x = List.nth fs 0 in
       let cf = zl (ints (String.sub x 7 (String.length x - 7))) and q = zl (ints (List.nth fs 1)) in
       Printf.printf "S %s | C %s ; W%d\n" (prz (asm_idct_islow cf q)) (prz (c_idct_islow cf q)) (if c_idct_islow_ok cf q then 0 else 1)
+  | "idct2x2" :: _ ->
+      let fs = fields line in
+      let x = List.nth fs 0 in
+      let cf = zl (ints (String.sub x 7 (String.length x - 7))) and q = zl (ints (List.nth fs 1)) in
+      Printf.printf "S %s | C %s ; W%d\n" (prz (asm_idct_2x2 cf q)) (prz (c_idct_2x2 cf q)) (if c2_ok cf q then 0 else 1)
   | "fdctint" :: _ ->
       let fs = fields line in
       let x = List.nth fs 0 in
